@@ -267,6 +267,18 @@ class TFail(_TOp):
         raise VerifProcError("boom")
 
 
+class TWriteThenFail(_TOp):
+    """Operation that writes the context key `w` it declares and then raises: the write has happened when the node fails."""
+
+    @classmethod
+    def context_keys(cls) -> List[str]:
+        return ["w"]
+
+    def _process_logic(self, data):
+        self._notify_context_update("w", ["written-before-failing", data.data])
+        raise VerifProcError("boom after writing")
+
+
 class KwOnlyError(Exception):
     """An exception that cannot be rebuilt from its own .args (keyword-only constructor), like several library errors."""
 
